@@ -11,7 +11,7 @@ from sa.ky import Lowered, key_sites
 from sa.pm import FuncInfo, call_name, norm, self_attr, walk_local_ordered
 from sa.report import Ob, rule
 
-from .common import attr_stores, ob, receiver_classes, single_return_expr, strip_ret, traces
+from .common import local_defs, attr_stores, ob, receiver_classes, single_return_expr, strip_ret, traces
 
 CACHE = 'zeroconf._cache.DNSCache'
 REC = 'zeroconf._dns.DNSRecord'
@@ -208,7 +208,9 @@ def keys(ctx: Any) -> List[Ob]:
     c = prog.cls(CACHE)
     for f in c.methods.values():
         me = f.params[0] if f.params else 'self'
-        for d, k, how in key_sites(f, lambda e: self_attr(e, me) in INDEXES):
+        # an index may be reached through a local alias (`cache = self.cache`)
+        aliases = {n_ for n_, vs in local_defs(f).items() if vs and all(v is not None and self_attr(v, me) in INDEXES for v in vs)}
+        for d, k, how in key_sites(f, lambda e, me=me, aliases=aliases: self_attr(e, me) in INDEXES or (isinstance(e, ast.Name) and e.id in aliases)):
             ok, why = low.is_lowered(f, k)
             obs.append(ob(R, f, f'{norm(d)} {how} {norm(k)}', 'index key is lower-cased', ok, why))
         for x in walk_local_ordered(f.node):
